@@ -14,7 +14,10 @@ Oracle (written from the statement; it reads the wire and the arguments of ``sen
    overlay produced to the destination the overlay asked for;
  * the hold queue never exceeds 100 entries and only ever holds datagrams of the anonymized overlay;
  * every datagram of the plain overlay leaves N's raw socket exactly once, byte-identical, to the requested
-   destination, and never enters the tunnel or the queue (also probed after *every* transition).
+   destination, and never enters the tunnel or the queue.
+The plain overlay may itself be switched to anonymous (event ``setp plain True``); it is then held to the first three
+rules.  After *every* transition a probe re-declares anonymity off for all other prefixes (what loading or configuring
+another overlay does) and lets both overlays send once more, judged by the same rules.
 """
 from __future__ import annotations
 
@@ -46,6 +49,7 @@ BURST = 101
 TICK = 5.0                   # == TunnelSettings.remove_tunnel_delay
 DEST_ANON = UDPv4Address("9.9.9.9", 99)
 DEST_PLAIN = UDPv4Address("8.8.8.8", 88)
+UNKNOWN_PREFIX = b"\x00\x02" + b"\xee" * 20            # a community id nobody on N uses
 ROLES = {"X": EXIT_ALL, "Y": EXIT_BT}     # X exits IPv8 traffic, Y does not; both also relay (2-hop circuits)
 
 
@@ -84,9 +88,10 @@ class PlainOverlay(_ToyOverlay):
 
 class Ref:
     def __init__(self) -> None:
-        self.anon_asked = True                    # AnonOverlay was created with settings.anonymize = True
-        self.anon_packets: set[bytes] = set()     # everything the anonymized overlay ever produced
-        self.plain_packets: set[bytes] = set()
+        # who asks for anonymity right now / ever did: AnonOverlay was created with settings.anonymize = True
+        self.asked = {"anon": True, "plain": False}
+        self.ever_asked = {"anon": True, "plain": False}
+        self.packets: dict[str, set] = {"anon": set(), "plain": set()}   # everything each toy overlay ever produced
         self.fates = {"anon_tunnelled": 0, "anon_raw_while_not_anonymous": 0, "plain_raw": 0, "anon_produced": 0,
                       "anon_exited_at": {}}
 
@@ -134,8 +139,10 @@ class C07World(simnet.World):
         self.wire_mark = len(self.wire_log)
         self.out_mark = len(self.loop.outside_log)
         self.ctx_before = ""
-        self.asked_before = True
-        self.plain_now: list[bytes] = []
+        self.asked_before = dict(self.ref.asked)
+        self.sent_now: dict[str, list] = {"anon": [], "plain": []}
+        self.prefix_of = {"anon": self.a_prefix, "plain": self.p_prefix, "tunnel": self.t_prefix, "unknown": UNKNOWN_PREFIX}
+        self.dest_of = {"anon": tuple(DEST_ANON), "plain": tuple(DEST_PLAIN)}
         self.max_queue = 0
         self._wrap_send_data()
 
@@ -192,23 +199,32 @@ class C07World(simnet.World):
         self.wire_mark = len(self.wire_log)
         self.out_mark = len(self.loop.outside_log)
         self.ctx_before = self.situation()
-        self.asked_before = self.ref.anon_asked
-        self.plain_now = []
+        self.asked_before = dict(self.ref.asked)
+        self.sent_now = {"anon": [], "plain": []}
         self.max_queue = len(self.tep.send_queue)
 
     def send_anon(self, count: int = 1) -> None:
         for _ in range(count):
             self.marker += 1
             p = self.n.run(self.anon.send_marker, DEST_ANON, self.marker)
-            self.ref.anon_packets.add(p)
+            self.sent_now["anon"].append(p)
+            self.ref.packets["anon"].add(p)
             self.ref.fates["anon_produced"] += 1
             self.max_queue = max(self.max_queue, len(self.tep.send_queue))
 
     def send_plain(self) -> None:
         self.marker += 1
         p = self.n.run(self.plain.send_marker, DEST_PLAIN, self.marker)
-        self.plain_now.append(p)
-        self.ref.plain_packets.add(p)
+        self.sent_now["plain"].append(p)
+        self.ref.packets["plain"].add(p)
+        self.max_queue = max(self.max_queue, len(self.tep.send_queue))
+
+    def set_other(self, which: str, enable: bool) -> None:
+        """set_anonymity for a prefix other than the anonymized overlay's own (what loading/configuring another overlay does)."""
+        if which == "plain":
+            self.ref.asked["plain"] = enable
+            self.ref.ever_asked["plain"] |= enable
+        self.tep.set_anonymity(self.prefix_of[which], enable)
 
     def peer_of(self, target: str):  # noqa: ANN201
         p = self.n.network.get_verified_by_public_key_bin(self.nodes[target].my_peer.public_key.key_to_bin())
@@ -376,7 +392,7 @@ class Model(core.BfsModel):
         # With the tunnel community attached and no suitable circuit in sight, each of the 101 sends starts a circuit
         # of its own (the library only recognises a circuit as "coming" once its first hop answered); that situation
         # is covered by the single send-anon event, the burst is skipped there to keep worlds small.
-        return not (w.tep.tunnel_community is not None and w.ref.anon_asked
+        return not (w.tep.tunnel_community is not None and w.ref.asked["anon"]
                     and w.situation() == "no-suitable-circuit")
 
     # -- transitions ------------------------------------------------------------------------------------
@@ -400,8 +416,10 @@ class Model(core.BfsModel):
         elif k == "attach":
             w.tep.set_tunnel_community(w.tc, hops=ev[1])
         elif k == "toggle":
-            w.ref.anon_asked = not w.ref.anon_asked
-            w.tep.set_anonymity(w.a_prefix, w.ref.anon_asked)
+            w.ref.asked["anon"] = not w.ref.asked["anon"]
+            w.tep.set_anonymity(w.a_prefix, w.ref.asked["anon"])
+        elif k == "setp":
+            w.set_other(ev[1], bool(ev[2]))
         else:
             raise ValueError(ev)
         w.flush()
@@ -424,13 +442,16 @@ class Model(core.BfsModel):
         exited = tally((t.owner.name if t.owner else None, self.label(w, d)) for t, d, a in w.loop.outside_log[w.out_mark:])
         calls = tally((self.label(w, c["data"]), None if c["circuit"] is None else
                        (c["circuit"]["state"], c["circuit"]["goal_hops"], c["circuit"]["exit"])) for c in w.calls)
-        return (w.ctx_before, w.asked_before, raw, calls, exited, len(w.tep.send_queue), w.max_queue)
+        return (w.ctx_before, tuple(sorted(w.asked_before.items())), raw, calls, exited, len(w.tep.send_queue), w.max_queue)
 
     # -- digest -----------------------------------------------------------------------------------------
     def _digest(self, w: C07World):  # noqa: ANN201
         now = time.time()
         tep, tc = w.tep, w.tc
-        labels = {w.t_prefix: "tunnel", w.a_prefix: "anon", w.p_prefix: "plain"}
+        labels = {w.t_prefix: "tunnel", w.a_prefix: "anon", w.p_prefix: "plain", UNKNOWN_PREFIX: "unknown"}
+        # every plain-valued attribute of the endpoint object: a flag or counter somebody adds there is state as well
+        scalars = tuple(sorted((k, repr(x)) for k, x in vars(tep).items()
+                               if isinstance(x, (bool, int, float, str, bytes, type(None)))))
         settings = tuple(sorted((labels.get(k, k.hex()), v) for k, v in tep.settings.items()))
         circuits = []
         for c in tc.circuits.values():      # dict order: find_circuits()[0] depends on it
@@ -453,7 +474,7 @@ class Model(core.BfsModel):
         queue = [(labels.get(p[:22], "other"), tuple(a)) for a, p in tep.send_queue]
         return (settings, tep.tunnel_community is tc, tep.tunnel_community is None, tep.hops,
                 (len(queue), tuple(sorted(set(queue)))), tuple(circuits), tuple(tables), timers, len(w.inflight),
-                w.ref.anon_asked)
+                tuple(sorted(w.ref.asked.items())), tuple(sorted(w.ref.ever_asked.items())), scalars)
 
     # -- oracle -----------------------------------------------------------------------------------------
     def judge(self, w: C07World, what: str) -> list:
@@ -461,47 +482,53 @@ class Model(core.BfsModel):
         v: list = []
         ref = w.ref
         ctx = w.ctx_before
-        asked = w.asked_before and ref.anon_asked       # the overlay asked for anonymity during the whole step
+        overlay_of = {w.a_prefix: "anon", w.p_prefix: "plain"}
+        # an overlay is held to the anonymity rules if it asked during the whole step, and to "unaffected" if it never asked
+        asked = {o: w.asked_before[o] and ref.asked[o] for o in ref.asked}
         raw = [dg for dg in w.wire_log[w.wire_mark:] if dg.sender is w.raw]
 
         # 1. N's own socket
-        plain_seen: dict[bytes, int] = {}
+        raw_seen: dict[bytes, int] = {}
         for dg in raw:
-            pre = dg.data[:22]
-            if pre == w.a_prefix:
-                if asked:
-                    v.append((f"raw-leak|{ctx}", f"N's own socket sent a datagram of the anonymized overlay to {dg.dst} "
-                              f"({len(dg.data)} bytes; produced by the overlay: {dg.data in ref.anon_packets}) while the "
-                              f"overlay asks for anonymity; situation before the step: {ctx}; step {what}"))
-                else:
-                    ref.fates["anon_raw_while_not_anonymous"] += 1
-            elif pre == w.p_prefix:
-                plain_seen[dg.data] = plain_seen.get(dg.data, 0) + 1
-                if dg.data not in ref.plain_packets:
-                    v.append(("plain-affected:altered", f"raw datagram with the plain overlay's prefix that the overlay never "
-                              f"produced ({len(dg.data)} bytes to {dg.dst}); step {what}"))
-                elif tuple(dg.dst) != tuple(DEST_PLAIN):
-                    v.append(("plain-affected:misrouted", f"plain overlay datagram sent to {dg.dst}, asked {DEST_PLAIN}; "
-                              f"step {what}"))
-        # 4. the plain overlay is unaffected
-        for p in w.plain_now:
-            n = plain_seen.get(p, 0)
-            if n == 1:
-                ref.fates["plain_raw"] += 1
+            o = overlay_of.get(dg.data[:22])
+            if o is None:
                 continue
-            fate = ("duplicated" if n > 1 else "tunnelled" if any(c["data"] == p for c in w.calls) else
-                    "queued" if any(q == p for _, q in w.tep.send_queue) else "vanished")
-            v.append((f"plain-affected:{fate}", f"the plain overlay's datagram left N's raw socket {n} times (expected exactly "
-                      f"once, byte-identical): {fate}; situation {ctx}; step {what}"))
-        for c in w.calls:
-            if c["data"][:22] == w.p_prefix and c["data"] not in w.plain_now:
-                v.append(("plain-affected:tunnelled", f"send_data was called with an earlier datagram of the plain overlay; "
-                          f"step {what}"))
+            raw_seen[dg.data] = raw_seen.get(dg.data, 0) + 1
+            if asked[o]:
+                v.append((f"raw-leak|{ctx}",
+                          f"N's own socket sent a datagram of the {o} overlay to {dg.dst} ({len(dg.data)} bytes; produced by "
+                          f"the overlay: {dg.data in ref.packets[o]}) while that overlay asks for anonymity; situation before "
+                          f"the step: {ctx}; step {what}"))
+            elif ref.ever_asked[o]:
+                ref.fates["anon_raw_while_not_anonymous"] += 1
+            elif dg.data not in ref.packets[o]:
+                v.append((f"{o}-affected:altered", f"raw datagram with the {o} overlay's prefix that the overlay never "
+                          f"produced ({len(dg.data)} bytes to {dg.dst}); step {what}"))
+            elif tuple(dg.dst) != w.dest_of[o]:
+                v.append((f"{o}-affected:misrouted", f"{o} overlay datagram sent to {dg.dst}, asked {w.dest_of[o]}; step {what}"))
+        # 4. an overlay that never asked for anonymity is unaffected
+        for o, sent in w.sent_now.items():
+            if ref.ever_asked[o]:
+                continue
+            for p in sent:
+                n = raw_seen.get(p, 0)
+                if n == 1:
+                    ref.fates["plain_raw"] += 1
+                    continue
+                fate = ("duplicated" if n > 1 else "tunnelled" if any(c["data"] == p for c in w.calls) else
+                        "queued" if any(q == p for _, q in w.tep.send_queue) else "vanished")
+                v.append((f"{o}-affected:{fate}", f"the {o} overlay (never asked for anonymity) sent a datagram that left N's "
+                          f"raw socket {n} times (expected exactly once, byte-identical): {fate}; situation {ctx}; step {what}"))
 
         # 2. tunnel data
         for c in w.calls:
-            pre = c["data"][:22]
-            if pre != w.a_prefix:
+            o = overlay_of.get(c["data"][:22])
+            if o is None:
+                continue
+            if not ref.ever_asked[o]:
+                if c["data"] not in w.sent_now[o]:
+                    v.append((f"{o}-affected:tunnelled", f"send_data was called with an earlier datagram of the {o} overlay, "
+                              f"which never asked for anonymity; step {what}"))
                 continue
             cv = c["circuit"]
             why = None
@@ -515,13 +542,13 @@ class Model(core.BfsModel):
                 why = "exit-not-ipv8"
             elif c["target"] != c["first_hop"]:
                 why = "not-sent-to-first-hop"
-            elif c["data"] not in ref.anon_packets:
+            elif c["data"] not in ref.packets[o]:
                 why = "bytes-altered"
-            elif c["dest"] != tuple(DEST_ANON):
+            elif c["dest"] != w.dest_of[o]:
                 why = "destination-altered"
             if why:
-                v.append((f"tunnel-data:{why}|{ctx}", f"send_data for a datagram of the anonymized overlay named circuit "
-                          f"{cv} (configured length {c['configured_hops']}, target {c['target']}, dest {c['dest']}): {why}; "
+                v.append((f"tunnel-data:{why}|{ctx}", f"send_data for a datagram of the {o} overlay named circuit {cv} "
+                          f"(configured length {c['configured_hops']}, target {c['target']}, dest {c['dest']}): {why}; "
                           f"situation before the step: {ctx}; step {what}"))
             else:
                 ref.fates["anon_tunnelled"] += 1
@@ -530,10 +557,11 @@ class Model(core.BfsModel):
         reached = max(w.max_queue, len(w.tep.send_queue))
         if reached > QUEUE_BOUND:
             v.append(("queue-unbounded", f"hold queue reached {reached} entries (bound {QUEUE_BOUND}); step {what}"))
-        foreign = [q for _, q in w.tep.send_queue if q[:22] != w.a_prefix and q not in ref.plain_packets]
+        foreign = [q for _, q in w.tep.send_queue
+                   if overlay_of.get(q[:22]) is None or (not ref.ever_asked[overlay_of[q[:22]]] and q not in ref.packets["plain"])]
         if foreign:
-            v.append(("queue-foreign", f"{len(foreign)} queued datagrams belong to neither toy overlay (first prefix "
-                      f"{foreign[0][:22].hex()}); step {what}"))
+            v.append(("queue-foreign", f"{len(foreign)} queued datagrams belong to no overlay that asked for anonymity (first "
+                      f"prefix {foreign[0][:22].hex()}); step {what}"))
         for t, d, _ in w.loop.outside_log[w.out_mark:]:
             if d[:22] == w.a_prefix:
                 who = t.owner.name if t.owner else "?"
@@ -544,12 +572,17 @@ class Model(core.BfsModel):
         v = self.judge(w, repr(ev))
         if not probe:
             return v
-        # Probe (the digest was taken before, the world is thrown away after): a send by the plain overlay in the state
-        # just reached.  It is a self-loop of the state graph, so it is evaluated here instead of costing an event.
+        # Probe (the digest was taken before, the world is thrown away after) in the state just reached: anonymity is
+        # (re)declared off for every *other* prefix - what loading or configuring another overlay does, e.g.
+        # TunnelCommunity.__init__ for its own prefix - then both toy overlays send once.
         w.begin()
+        for which in ("tunnel", "unknown", "plain"):
+            if which != "plain" or not w.ref.asked["plain"]:
+                w.tep.set_anonymity(w.prefix_of[which], False)
         w.send_plain()
+        w.send_anon()
         w.flush()
-        v.extend(self.judge(w, f"plain-send probe after {ev!r}"))
+        v.extend(self.judge(w, f"probe (other prefixes declared not anonymous, plain send, anonymized send) after {ev!r}"))
         return v
 
 
@@ -560,9 +593,10 @@ class Model(core.BfsModel):
 FULL = [("sa",), ("sp",), ("burst",),
         ("build", "X", 1), ("build", "X", 2), ("build", "Y", 1), ("build", "Y", 2),
         ("rm", "first"), ("rm", "last"), ("tick",),
-        ("detach",), ("attach", 1), ("attach", 2), ("toggle",)]
+        ("detach",), ("attach", 1), ("attach", 2), ("toggle",),
+        ("setp", "tunnel", False), ("setp", "plain", False), ("setp", "plain", True), ("setp", "unknown", False)]
 CORE = [("sa",), ("burst",), ("build", "X", 1), ("build", "Y", 1), ("build", "X", 2),
-        ("rm", "first"), ("tick",), ("detach",), ("attach", 2), ("toggle",)]
+        ("rm", "first"), ("tick",), ("detach",), ("attach", 2), ("toggle",), ("setp", "tunnel", False)]
 
 WITNESSES = [
     [("sa",), ("sa",)],
@@ -575,6 +609,8 @@ WITNESSES = [
     [("detach",), ("sa",), ("attach", 1), ("sa",)],
     [("toggle",), ("sa",), ("toggle",), ("sa",)],
     [("sp",)],
+    [("setp", "tunnel", False), ("sa",), ("sa",)],
+    [("setp", "plain", True), ("sp",), ("sp",), ("setp", "plain", False), ("sp",)],
 ]
 
 
@@ -672,12 +708,14 @@ def run(ctx: core.Ctx) -> core.Report:
     cov = {
         "states": total_states, "transitions": total_trans, "traces_validated_against_impl": total_trans,
         "samples": samples, "exhaustive": exhaustive, "distinct_outcomes": outcomes, "runs": runs,
-        "plain_send_probes": total_trans, "witnesses": witnesses, "witness_fates_total": fates_total,
+        "probes_after_transition": total_trans, "witnesses": witnesses, "witness_fates_total": fates_total,
         "tick_seconds": TICK, "burst": BURST, "queue_bound": QUEUE_BOUND,
         "explanation": "BFS over event histories of a real node whose TunnelCommunity, anonymized overlay and plain overlay "
                        "share one TunnelEndpoint(SimEndpoint), with real relay/exit nodes; every transition is executed on "
                        "the implementation (macro step to network quiescence) and judged on the wire and on the arguments "
-                       "of send_data; after every transition a plain-overlay send is probed in the reached state. "
+                       "of send_data; after every transition a probe runs in the reached state (anonymity declared off for the "
+                       "tunnel community's, an unknown and - unless it asked - the plain overlay's prefix, then one plain and "
+                       "one anonymized send), judged by the same oracle. "
                        "distinct_outcomes counts distinct (situation, raw kinds, send_data circuit classes, exit kinds, "
                        "queue length) observations.",
     }
